@@ -121,12 +121,33 @@ Definition ParamMatch (o e : param) : Prop :=
      \/ ((p_optional o = true \/ p_default o <> ENone) /\ p_optional e = false /\
          ty_strip (p_ty e) = Some (ty_id (p_ty o)))).
 
+(* where the normalisation applies: a parameter is optional-like when it is optional, has a default
+   or is a rest parameter; a plain-identifier parameter with a default stays optional-like (`x?: T`,
+   or its leavable default kept) when only optional-like parameters follow it; it may become the
+   required `x: T | undefined` only when a required parameter follows (ParamsOptionalStartIndex) *)
+Definition optional_like (p : param) : bool :=
+  p_optional p || negb (match p_default p with ENone => true | _ => false end) ||
+  match p_pat p with PRest => true | _ => false end.
+Definition required_follows (ps : list param) : bool := existsb (fun p => negb (optional_like p)) ps.
+Fixpoint optrunb (os es : list param) : bool :=
+  match os, es with
+  | o :: os', e :: es' =>
+      (match p_pat o, p_default o with
+       | PIdent, ENone => true
+       | PIdent, _ => required_follows os' || optional_like e
+       | _, _ => true
+       end) && optrunb os' es'
+  | _, _ => true
+  end.
+Definition OptRun (os es : list param) : Prop := optrunb os es = true.
+
 (* the signature of a function-like; the implementation of an overloaded function is exempt *)
 Definition FnMatch (o e : fnsum) : Prop :=
   fn_kind e = fn_kind o /\
   (fn_ovl o = false ->
      fn_tpc e = fn_tpc o /\ fn_tpi e = fn_tpi o /\
-     Forall2R ParamMatch (fn_params o) (fn_params e) /\ TyCarried (fn_ret o) (fn_ret e)).
+     Forall2R ParamMatch (fn_params o) (fn_params e) /\ TyCarried (fn_ret o) (fn_ret e) /\
+     OptRun (fn_params o) (fn_params e)).
 
 (* a function / arrow expression that is the (retained) initialiser keeps its signature *)
 Definition InitFnMatch (o e : ecls) : Prop :=
@@ -256,7 +277,8 @@ Definition fnmatchb (o e : fnsum) : bool :=
   fkind_eqb (fn_kind e) (fn_kind o) &&
   (fn_ovl o ||
    (N.eqb (fn_tpc e) (fn_tpc o) && N.eqb (fn_tpi e) (fn_tpi o) &&
-    forall2b parammatchb (fn_params o) (fn_params e) && tycarriedb (fn_ret o) (fn_ret e))).
+    forall2b parammatchb (fn_params o) (fn_params e) && tycarriedb (fn_ret o) (fn_ret e) &&
+    optrunb (fn_params o) (fn_params e))).
 
 Definition initfnmatchb (o e : ecls) : bool :=
   match o, e with EFun fo, EFun fe => fnmatchb fo fe | _, _ => true end.
